@@ -122,6 +122,7 @@ def run(rep, idx, tier):
     # input_stages cycles either way); the output storage register is not
     _glue.reset_discipline(rep, "C16.6", idx, ["gpio:Peripheral", "gpio:Peripheral.Output._FieldAction"],
                            allowed=[("Peripheral", "pin_i_sync_ff")])
+    _glue.write_once_handles(rep, "C16.6", idx, "gpio:Peripheral")
     c = get_ctx(idx, "gpio:Peripheral.elaborate")
     ctor = get_ctor(idx, "gpio:Peripheral")
     rep.analysed(c.fi.site, ctor.fi.site)
